@@ -221,6 +221,11 @@ func (vm *VM) Run(program *Program, env interface{}) (out interface{}, err error
 			min := toInt(a)
 			max := toInt(b)
 			size := max - min + 1
+			if size < 0 {
+				// A range whose end precedes its start is empty: it must
+				// not give memory back to the budget.
+				size = 0
+			}
 			if vm.memory+size >= vm.limit {
 				panic("memory budget exceeded")
 			}
